@@ -3,7 +3,8 @@
    (load (represent v) = v) is tied to the implementation and evaluated per case, not proved: see C05_roundtrip_partial. *)
 From Coq Require Import NArith ZArith List Bool String.
 Import ListNotations.
-From Y Require Import Prelude Node Re Resolve Images Tables NodeOps Types Recognize Loader Hooks Represent DumpProofs RoundTrip.
+From Y Require Import Prelude Node Re Resolve Images Tables NodeOps Types Recognize Loader Hooks Represent DumpProofs RoundTrip
+                      PlainRoundTrip SweetenKeeps.
 Open Scope N_scope.
 
 (* A string that the dumper's resolver regards as a plain str -- and may therefore write without quotes -- is a str for
@@ -38,7 +39,7 @@ Proof.
 Qed.
 Print Assumptions C05_reparse_identity.
 
-(* The full round trip, reduced to the node level: loading the dumped text is loading the represented tree. *)
+(* The round trip for class-typed values, reduced to the node level: loading the dumped text is loading the represented tree. *)
 Theorem C05_roundtrip_partial : forall o reg T,
   sweeten_keeps reg (fun n => rt_stable loader_tbl n = true) ->
   forall plain_ok fuel v n, leaves_ok o v = true -> represent o reg fuel v = Ok n ->
@@ -46,7 +47,26 @@ Theorem C05_roundtrip_partial : forall o reg T,
 Proof.
   intros o reg T HK plain_ok fuel v n HL E. rewrite (C05_reparse_identity o reg HK plain_ok fuel v n HL E). reflexivity.
 Qed.
-(* missing for the full statement: load o reg (Some n) T = Ok v for unambiguous v (tied and evaluated per case) *)
+(* missing for the full statement: load o reg (Some n) T = Ok v for unambiguous CLASS-typed v (tied and evaluated per case) *)
+
+(* For plain data -- strings, numbers, booleans, null, dates, lists, dicts with hashable pairwise different keys, of every
+   size and nesting -- the round trip is proved in full: dumping and loading with no declared type gives back the value,
+   whatever quoting the emitter chose. *)
+Theorem C05_roundtrip_plain_data : forall o reg, sweeten_keeps reg (fun n => rt_stable loader_tbl n = true) ->
+  forall plain_ok v n, plain_rt v = true -> leaves_ok o v = true -> represent o reg FUEL v = Ok n ->
+  load o reg (Some (reparse loader_tbl plain_ok n)) TAny = Ok v.
+Proof.
+  intros o reg HK plain_ok v n Hp HL E.
+  rewrite (C05_reparse_identity o reg HK plain_ok FUEL v n HL E). apply load_any_of_represented; assumption.
+Qed.
+Print Assumptions C05_roundtrip_plain_data.
+
+(* The sweeteners yatiml itself offers for dumping only delete attributes; registries whose sweeten hooks are built from
+   them satisfy the hypothesis sweeten_keeps (for the round trip and for tag-freeness alike). *)
+Theorem C05_deleting_sweeteners_keep : forall o specs p,
+  Forall (fun s => match Hooks.s_sweeten s with Some prog => forallb deleting_prog prog = true | None => True end) specs ->
+  sweeten_keeps (Hooks.interp_reg o specs) (fun n => shape_ok p n = true).
+Proof. exact deleting_registry_keeps. Qed.
 
 (* non-vacuity: the strings that used to break the round trip *)
 Local Open Scope string_scope.
@@ -57,3 +77,9 @@ Proof. vm_compute. split; reflexivity. Qed.
 Example C05_ex_stable : rt_stable loader_tbl (Map tag_map [(Scalar tag_str (u "k") genmark, Scalar tag_str (u "abc") genmark);
                                                  (Scalar tag_str (u "n") genmark, Scalar tag_int (u "12") genmark)] genmark) = true.
 Proof. vm_compute. reflexivity. Qed.
+Example C05_ex_plain :
+  let o := [((tag_int, u "7"), Ok (VInt 7)); ((tag_null, u "null"), Ok VNone)] in
+  let v := VDict [(VStr (u "1e5"), VList [VInt 7; VNone]); (VInt 7, VStr (u "yes"))] in
+  plain_rt v = true /\ leaves_ok o v = true /\
+  (n <- represent o [] FUEL v ;; load o [] (Some (reparse loader_tbl (fun _ => true) n)) TAny) = Ok v.
+Proof. vm_compute. repeat split; reflexivity. Qed.
